@@ -130,10 +130,11 @@ PROPS["C11"] = {
     "feature": "c11",
     "tiers": tiers("C11"),
     "mem_gb": 10,
-    "functions": ["SeqIter::next", "RevIter::next", "SeqChunks::next", "SeqSlice::{iter,rev_iter,windows,chunks,chain}", "IntoIterator for &Seq / &SeqSlice"],
+    "functions": ["SeqIter::next", "RevIter::next", "SeqChunks::next", "SeqSlice::{iter,rev_iter,windows,chunks,chain}", "IntoIterator for &Seq / &SeqSlice",
+                  "FromIterator<&SeqSlice> for Vec<Seq> (two windows)"],
     "bounds": {"all": "window at symbolic offset with symbolic length n <= 6 (2-bit) / 4 (5,6-bit); windows/chunks with symbolic width 1..n+2; every iterator "
                       "is driven n+1 (max+1) times so termination within the bound is part of the claim"},
-    "outside": "n > 6; FromIterator<&SeqSlice> for Vec<Seq> (Vec growth)",
+    "outside": "n > 6; collecting more than a few windows into a Vec (Vec growth)",
 }
 
 PROPS["C01"] = {
